@@ -429,7 +429,7 @@ class MultipartRelatedConsolidator(ConsolidatorBase):
             if precision and width:
                 flag_str = "0"
                 precision_str = ""
-                width_str = str(max(precision, width))
+                width_str = str(max(int(precision), int(width)))
 
             # Construct the new-style format specifier
             return f"{{:{flag_str}{width_str}{precision_str}{type_char}}}"
